@@ -17,3 +17,39 @@ pub fn unhex_narrow(hex: &str) -> Result<u64, String> {
 pub fn unhex_trim(hex: &str) -> Result<u64, String> {
     u64::from_str_radix(&hex[..hex.len().min(16)], 16).map_err(|e| format!("bad: {}", e))
 }
+
+// ---- C13 controls: hidden inputs
+use std::collections::HashSet;
+use std::sync::atomic::{AtomicUsize, Ordering};
+static BAD_COUNTER: AtomicUsize = AtomicUsize::new(0);
+static mut BAD_LAST: u64 = 0;
+static BAD_LOCK: std::sync::Mutex<u64> = std::sync::Mutex::new(0);
+
+pub fn impure_counter(x: u64) -> u64 { x + BAD_COUNTER.fetch_add(1, Ordering::Relaxed) as u64 }
+pub fn impure_static_mut(x: u64) -> u64 { unsafe { let old = BAD_LAST; BAD_LAST = x; old } }
+pub fn impure_clock(x: u64) -> u64 { x + std::time::Instant::now().elapsed().as_nanos() as u64 }
+pub fn impure_env(x: u64) -> u64 { x + std::env::var("A5").map(|s| s.len() as u64).unwrap_or(0) }
+pub fn impure_address(x: &u64) -> usize { x as *const u64 as usize }
+pub fn impure_hash_order(cells: &[u64]) -> Vec<u64> {
+    let set: HashSet<u64> = cells.iter().copied().collect();
+    set.into_iter().collect()
+}
+pub fn impure_thread_id(x: u64) -> String { format!("{:?}{}", std::thread::current().id(), x) }
+
+// ---- C13.P4 control: a memo table whose slot index collapses two keys
+pub struct MemoBad { slots: Vec<Option<u64>> }
+impl MemoBad {
+    pub fn new() -> Self { MemoBad { slots: vec![None; 20] } }
+    pub fn entry(&mut self, a: u8, b: bool) -> u64 {
+        if a > 9 { return 0; }
+        self.get_collapsed(a as usize, b)
+    }
+    fn get_collapsed(&mut self, a: usize, b: bool) -> u64 {
+        let mut index = a;
+        if b { index += 5; }           // should be 10: (a, true) collides with (a + 5, false)
+        if let Some(v) = &self.slots[index] { return *v; }
+        let v = if b { (a as u64) * 1000 } else { a as u64 };
+        self.slots[index] = Some(v);
+        v
+    }
+}
